@@ -57,7 +57,10 @@ func classOf(mode string) string {
 }
 
 func checkProfile(t *testing.T, p profile, rec *ev.Rec) {
-	gen := genScript(p)
+	checkScripts(t, genScript(p), rec)
+}
+
+func checkScripts(t *testing.T, gen *rapid.Generator[*script], rec *ev.Rec) {
 	rapid.Check(t, func(t *rapid.T) {
 		sc := gen.Draw(t, "script")
 		out := runCase(sc)
@@ -88,6 +91,13 @@ func checkProfile(t *testing.T, p profile, rec *ev.Rec) {
 func TestHandshake(t *testing.T) { checkProfile(t, profHandshake, recHandshake) }
 func TestLifecycle(t *testing.T) { checkProfile(t, profLifecycle, recLifecycle) }
 func TestMixed(t *testing.T)     { checkProfile(t, profMixed, recMixed) }
+
+var recStalled = ev.New("C18", "stalled-trickle", ruleCommon+"Profile: canonical handshake confirmed by a settle step, then the write gate stalls the "+
+	"writer (after 0-126 bytes) while 2-6 inventory trickle intervals (1 ms) pass with inventory queued before each, then 0-4 queued sends "+
+	"(+-done, optionally from a second goroutine), then Disconnect / remote close / write failure / the gate opens / end of script.",
+	"clean", "inbound", "outbound", "gated-writes", "loss-with-messages-in-flight")
+
+func TestStalledTrickle(t *testing.T) { checkScripts(t, genStalledScript(), recStalled) }
 
 // TestHarnessSelf calibrates the harness' own codec against literals of the
 // protocol documentation and checks the gated connection; a failure here is
